@@ -35,9 +35,9 @@ CHECKS = {
         technique=E1 + "; two real Gateways joined by an ether whose every delivery decision is a choice point",
         text="For each of the repo's five pairing flows (thermostat->controller, CO2->fan, remote->fan, display->fan, DHW sensor->controller; with and "
         "without addenda) a faked supplicant and a faked respondent run on two real Gateways on one virtual loop. At every transmission of a 1FC9/10E0 "
-        "frame the explorer chooses: heard once; heard 2 or 3 times in one loop iteration / 20 ms / 150 ms apart; lost for the peer / for everybody; the "
+        "frame the explorer chooses: heard once; heard 2 or 3 times in one loop iteration / 20 ms / 150 ms apart; lost for the peer / for everybody / for the sender's own gateway only (echo missed); the "
         "whole command (all retransmissions) lost / unheard by the peer; heard 2.95, 3.05, 4.95, 5.05, 5.15 s late (around the 3 s and 5 s waits); followed by "
-        "a third party's offer, broadcast offer, accept or confirm; the respondent or supplicant caller abandons. All schedules with <= 3 repeats-only "
+        "a third party's offer, broadcast offer, accept or confirm; the respondent or supplicant caller abandons; the application calls the entry point a second time in mid-handshake. All schedules with <= 3 repeats-only "
         "deviations (thorough 4 = every repeat pattern over every frame), <= 2 (3) mixed deviations, <= 3 (4) loss/late/cancel deviations, plus start offsets of "
         "either side around the 5 s offer wait. Oracle: under repeats and third-party traffic both ends succeed with frame-for-frame equal tuples equal to "
         "the flow; every attempt ends within the sum of its stated waits with the tuple or a library error; once both have ended neither device is binding; "
